@@ -8,6 +8,8 @@ import NimaVerif.Gen.Gate
 Everything after the gate is decision logic and is proved for all texts, paths and values.
 -/
 namespace Nima.C07
+-- name tokens are compared by spelling in this file (see `NameCmp` in Model/Edit.lean)
+attribute [local instance] NameCmp.spelled
 
 /-- Translator tie: the gate has the shape the model assumes (statement order in `from_cst`,
     `RawExpression.rebuild`, `NixSourceCode.rebuild`, value checks first in `set_value`,
